@@ -28,7 +28,11 @@ use crate::internal::sync::{fence, Arc, AtomicPtr, AtomicU32, Mutex, Ordering};
 /// convoy collapses at 128 (frequent consumer-side release under the consumer
 /// mutex); mpsc multi-producer degrades at 512 (larger hot working set).
 /// 256 is the point aimed at satisfying both.
+#[cfg(not(excsn_fibre_verif))]
 pub(crate) const SLAB_NODES: usize = 128;
+/// Simulation builds use tiny slabs so sealing / recycling happens within a handful of sends.
+#[cfg(excsn_fibre_verif)]
+pub(crate) const SLAB_NODES: usize = 4;
 
 /// Retired slabs kept for reuse; beyond this the allocator gets them back, so
 /// a queue-depth burst doesn't pin its high-water memory forever.
